@@ -73,6 +73,13 @@ func checkCmd(args []string) int {
 		entries = append(entries, vc.FixtureCorpus(*repo, "router", "middleware")...)
 		cr.CheckRoutingFamily(entries)
 		return cr.Finish("proof", checkerCmd, commonTrusted, "quoting rule obligations of encodeRawFileAsString (all file contents) + ServeHTTP/ensures#spec per corpus package (all requests)")
+	case "C01":
+		cr.CheckFS()
+		cr.CheckCorpusCompiles(corpusDir)
+		return cr.Finish("proof", checkerCmd, commonTrusted, "Layer G: ensures[C01] clauses of WriteToFile/RenderToFile (success => the written text was accepted and formatted by imports.Process), all inputs. Bounded stand-in (not counted as discharged): every corpus package generated with exit 0 must load and type-check")
+	case "C19":
+		cr.CheckFS()
+		return cr.Finish("proof", checkerCmd, commonTrusted, "one obligation per (function, return site, ensures clause) of WriteToFile / RenderToFile / Generate over the ghost file system, plus the call-graph scan for file-system writers; all pre-states and invocations are quantified")
 	case "C17":
 		entries := vc.CorsCorpus(corpusDir, *tier)
 		entries = append(entries, vc.FixtureCorpus(*repo, "cors_default")...)
